@@ -53,6 +53,32 @@ Proof.
   destruct (r_funmap r); reflexivity.
 Qed.
 
+(* ---- common.chr_prefix(ch, chrs): "chr" when the header lacks the bare name and has the prefixed one, else "" ---- *)
+Definition smem (x : str) (l : list str) : bool := existsb (str_eqb x) l.
+Definition CHR : str := [99; 104; 114].
+Definition chr_prefix (ch : str) (chrs : list str) : str := if negb (smem ch chrs) && smem (CHR ++ ch) chrs then CHR else [].
+
+Lemma smem_In : forall x l, smem x l = true <-> In x l.
+Proof.
+  intros x l. unfold smem. rewrite existsb_exists. split.
+  - intros (y & I & E). apply seqb_eq in E. subst. exact I.
+  - intros I. exists x. split; [exact I|apply seqb_refl].
+Qed.
+
+(* the name the loader looks for is a contig of the header whenever the header has the gene's contig under either spelling;
+   the bare name is preferred when both are present *)
+Theorem chr_prefix_names_a_contig : forall ch chrs, In ch chrs \/ In (CHR ++ ch) chrs -> In (chr_prefix ch chrs ++ ch) chrs.
+Proof.
+  intros ch chrs H. unfold chr_prefix. destruct (smem ch chrs) eqn:A; cbn [negb andb].
+  - apply smem_In. exact A.
+  - destruct (smem (CHR ++ ch) chrs) eqn:B.
+    + apply smem_In. exact B.
+    + exfalso. destruct H as [H|H]; apply smem_In in H; congruence.
+Qed.
+
+Theorem chr_prefix_prefers_bare : forall ch chrs, In ch chrs -> chr_prefix ch chrs = [].
+Proof. intros ch chrs H. unfold chr_prefix. apply smem_In in H. rewrite H. reflexivity. Qed.
+
 Example in_region_named_example :
   in_region_named [] [50;48] [50;48] false 100 (Some 150) 120 400 = true /\
   in_region_named [] [50;48] [49;50;48] false 100 (Some 150) 120 400 = false /\
